@@ -1,7 +1,7 @@
 (** C02 — Handover only moves objects forward between revisions.
     Statements only. *)
 From Coq Require Import List NArith ZArith Bool.
-From PKO Require Import Base Owner OwnerProofs Api Phase AdoptionProofs PhaseProofs AdoptProofs.
+From PKO Require Import Base Owner OwnerProofs Api Phase AdoptionProofs PhaseProofs AdoptProofs RevisionProofs.
 Import ListNotations.
 
 (** An ObjectSet never takes control of an object whose recorded revision is higher than its own:
@@ -44,3 +44,26 @@ Theorem C02_owner_list_after_adoption :
     is_controller_l ow l = true.
 Proof. exact adopt_controllers. Qed.
 Print Assumptions C02_owner_list_after_adoption.
+
+(** No Package Operator write lowers an object's recorded revision. Invariant [rev_consistent]: an object
+    controlled by an owner records that owner's revision. Under it every successful write of a reconcile
+    records the writer's revision, which is not lower than what was recorded before (already controlled:
+    equal; adoption: only from a revision that is not higher) ... *)
+Theorem C02_no_write_lowers_the_recorded_revision :
+  forall c w ow prev p o w' evs r,
+    lookup (key_of ow p) (w_store w) = Some o -> rev_consistent c ow o ->
+    reconcile_object c idw w ow prev p = (w', evs, r) -> Forall (ev_rev_ok ow o) evs.
+Proof. exact rec_obj_revision_monotone. Qed.
+Print Assumptions C02_no_write_lowers_the_recorded_revision.
+
+(** ... and the invariant holds again for the writer afterwards, so it is preserved along every history of
+    reconciles of any revisions (third parties that rewrite the revision annotation of an object Package
+    Operator controls are tampering and excluded, DESIGN section 9). *)
+Theorem C02_revision_invariant_reestablished :
+  forall c w ow prev p w' evs o',
+    reconcile_object c idw w ow prev p = (w', evs, ROk o') -> ow_paused ow = false ->
+    is_controller (flavor_strat (c_flavor c)) (ow_id ow) o' = true ->
+    (forall o, lookup (key_of ow p) (w_store w) = Some o -> rev_consistent c ow o) ->
+    obj_revision o' = Some (ow_rev ow).
+Proof. exact rec_obj_revision_consistent_after. Qed.
+Print Assumptions C02_revision_invariant_reestablished.
